@@ -61,6 +61,13 @@ def plan(tier, seed):
             ('Sw_%s_s64l' % t, 'c09::Conv<%s, cnl::scaled_integer<long, %s>, %s, 0>' % (tag, pE, sc(S64, 0)), 'convert|%s|long:E|long:0' % tn, -62 if tn in ('native', 'neg_inf') else -30, -1),  # nearest / tie: shifts >= 31 are rejected at compile time
             ('Sw_%s_u16r' % t, 'c09::Conv<%s, cnl::scaled_integer<unsigned short, %s>, cnl::scaled_integer<cnl::rounding_integer<unsigned char, %s>, cnl::power<0>>, 1>' % (tag, pE, tag),
              'ctor|%s|unsigned_short:E|scaled_rounding_unsigned_char:0' % tn, -15, -1),
+            # the representation is itself a rounding_integer (the rep's own scale<> does the rounding): distances up to the rep's digits
+            ('Sw_%s_r8' % t, 'c09::Conv<%s, cnl::scaled_integer<cnl::rounding_integer<signed char, %s>, %s>, cnl::scaled_integer<cnl::rounding_integer<signed char, %s>, cnl::power<0>>, 1>' % (tag, tag, pE, tag),
+             'ctor|%s|signed_char:E|rounding_rep|scaled_rounding_signed_char:0' % tn, -7, -1),
+            ('Sw_%s_r16' % t, 'c09::Conv<%s, cnl::scaled_integer<cnl::rounding_integer<short, %s>, %s>, cnl::scaled_integer<cnl::rounding_integer<int, %s>, cnl::power<0>>, 1>' % (tag, tag, pE, tag),
+             'ctor|%s|short:E|rounding_rep|scaled_rounding_int:0' % tn, -15, -1),
+            ('Sw_%s_r32' % t, 'c09::Conv<%s, cnl::scaled_integer<cnl::rounding_integer<int, %s>, %s>, cnl::scaled_integer<cnl::rounding_integer<int, %s>, cnl::power<0>>, 2>' % (tag, tag, pE, tag),
+             'assign|%s|int:E|rounding_rep|scaled_rounding_int:0' % tn, -30, -1),
             ('Sw_%s_f64' % t, 'c09::Conv<%s, double, cnl::scaled_integer<int, %s>, 0>' % (tag, pE), 'convert|%s|f64|int:E' % tn, -40, 24),
         ]
     units += sweep_units('C09', 'props/C09.h', sweeps, cases * 2, nunits=8, keep=(lambda i, r: i % 2 == 0) if quick else None)
